@@ -277,7 +277,7 @@ def _dispatch(t):
 def tasks_for(tier, seed):
     rng = random.Random(seed * 211 + 3)
     tasks = []
-    k_atoms = 5 if tier == "quick" else 7
+    k_atoms = 5 if tier == "quick" else 8
     for li, (lname, otext, odecl) in enumerate(LAYOUTS):
         for gi in ([li % len(GOALS), (li + 3) % len(GOALS)] if tier == "quick" else range(len(GOALS))):
             tasks.append({"kind": "faithful", "layout": lname, "objects_text": otext, "objects_decl": odecl,
@@ -285,7 +285,7 @@ def tasks_for(tier, seed):
                           "goal": GOALS[gi]})
     tasks.append({"kind": "faithful", "layout": "grouped", "objects_text": LAYOUTS[1][1], "objects_decl": LAYOUTS[1][2], "atoms": [],
                   "fluents": [], "goal": []})
-    n = 40 if tier == "quick" else 500
+    n = 40 if tier == "quick" else 4000
     while len([t for t in tasks if t["kind"] == "faithful"]) < n:
         lname, otext, odecl = rng.choice(LAYOUTS)
         tasks.append({"kind": "faithful", "layout": lname, "objects_text": otext, "objects_decl": odecl,
